@@ -364,8 +364,15 @@ func c08GenFrame(r *Rng) c08FrameCase {
 	return fc
 }
 
-func c08Flags(caller, attrsR bool) {
+// privacy: the two path-rewriting flags a released program runs with (init() takes Lprivacypathregexp off under
+// go test and in debug builds); the caller field of every record then goes through the known-path and regexp rules
+func c08Flags(caller, attrsR, privacy bool) {
 	slog.AddFlags(slog.LnoInterrupt)
+	if privacy {
+		slog.AddFlags(slog.Lprivacypath | slog.Lprivacypathregexp)
+	} else {
+		slog.RemoveFlags(slog.Lprivacypathregexp)
+	}
 	if caller {
 		slog.AddFlags(slog.Lcaller)
 	} else {
@@ -423,7 +430,7 @@ func c08Aliased(lists ...[]slog.Attr) bool {
 }
 
 func c08FrameOne(r *Run, fc c08FrameCase, fixTerm string) {
-	c08Flags(fc.Caller, false)
+	c08Flags(fc.Caller, false, false)
 	var w *c08W
 	var e *slog.Entry
 	var args, argsCopy []slog.Attr
